@@ -445,3 +445,78 @@ def r02_6_day_of_year_decomposition(ctx: Ctx) -> RuleResult:
             else:
                 rr.fail(ci.cls, f"{'leap' if leap else 'common'} year {y}, day-of-year {bad[0]}: decomposed into {bad[1]}, the month tables give {expected[bad[0] - 1]}", ctx.loc(f))
     return rr
+
+
+# ------------------------------------------------------------------------------------------- R02.7 Hebrew molad arithmetic
+
+
+def _hebrew_elapsed_days_spec(year: int) -> int:
+    """Day number (from the Hebrew epoch) of 1 Tishri: the published molad arithmetic (Dershowitz & Reingold, Calendrical
+    Calculations, `hebrew-calendar-elapsed-days`): mean lunation 29d 12h 793p, molad of year 1 at 5h 204p on day 1 (Monday),
+    and the four postponement rules."""
+    leap = lambda y: (7 * y + 1) % 19 < 7  # noqa: E731
+    months = 235 * ((year - 1) // 19) + 12 * ((year - 1) % 19) + (7 * ((year - 1) % 19) + 1) // 19
+    parts = 204 + 793 * (months % 1080)
+    hours = 5 + 12 * months + 793 * (months // 1080) + parts // 1080
+    day = 1 + 29 * months + hours // 24
+    p = 1080 * (hours % 24) + parts % 1080
+    if p >= 19440 or (day % 7 == 2 and p >= 9924 and not leap(year)) or (day % 7 == 1 and p >= 16789 and leap(year - 1)):
+        day += 1
+    if day % 7 in (0, 3, 5):
+        day += 1
+    return day
+
+
+def _hebrew_critical_years(margin: int = 40, limit: int = 260) -> list[int]:
+    """Years whose molad falls within `margin` parts of a decision threshold of the published algorithm (a postponement limit or
+    midnight): the years on which a slightly wrong constant changes the answer.  Computed from the specification only."""
+    leap = lambda y: (7 * y + 1) % 19 < 7  # noqa: E731
+    out = []
+    for year in range(1, 10000):
+        months = 235 * ((year - 1) // 19) + 12 * ((year - 1) % 19) + (7 * ((year - 1) % 19) + 1) // 19
+        parts = 204 + 793 * (months % 1080)
+        hours = 5 + 12 * months + 793 * (months // 1080) + parts // 1080
+        day = 1 + 29 * months + hours // 24
+        p = 1080 * (hours % 24) + parts % 1080
+        near = [abs(p - 19440), p, 25920 - p]
+        if day % 7 == 2 and not leap(year):
+            near.append(abs(p - 9924))
+        if day % 7 == 1 and leap(year - 1):
+            near.append(abs(p - 16789))
+        if min(near) <= margin:
+            out.append(year)
+    return out[:: max(1, len(out) // limit)]
+
+
+@rule("C02")
+def r02_7_hebrew_molad(ctx: Ctx) -> RuleResult:
+    """The start of every Hebrew year (hence every year length, hence the lengths of Heshvan and Kislev) comes from the molad
+    arithmetic.  `__elapsed_days_no_cache` is evaluated by the abstract interpreter on exact years and compared with the
+    published algorithm re-stated in the checker: quick tier every 61st year of 1..9999, the first 40 years and the years whose molad lies within 40 parts of a decision
+    threshold of the published algorithm (where a slightly wrong constant shows), thorough tier
+    every year.  A wrong constant (lunation parts, epoch molad, a postponement threshold) shifts some year start."""
+    rr = RuleResult("R02.7", "Hebrew year starts: the molad / postponement arithmetic equals the published algorithm on the years evaluated (sample in the quick tier, all 9999 years in the thorough tier)", min_instances=1)
+    M = ctx.M
+    c = M.cls("_HebrewScripturalCalculator")
+    f = next((g for g in c.all_defs if g.name.endswith("elapsed_days_no_cache")), None)
+    if f is None:
+        raise AnalysisError("_HebrewScripturalCalculator.__elapsed_days_no_cache missing")
+    years = sorted(set(range(1, 41)) | set(range(1, 10000, 61)) | {9999} | set(_hebrew_critical_years())) if ctx.tier == "quick" else range(1, 10000)
+    rr.inst()
+    bad = None
+    n = 0
+    for y in years:
+        I = interp(ctx)
+        I.max_depth = 6
+        rets, _ = I.analyse(f, params={f.value_params[0].arg: Iv(y, y)})
+        rr.states += 1
+        n += 1
+        vals = {int(v.lo) for v, _ in rets if isinstance(v, Iv) and v.const}
+        if len(rets) < 1 or vals != {_hebrew_elapsed_days_spec(y)} or len(vals) != 1:
+            bad = (y, sorted(vals) or [repr(v) for v, _ in rets][:2])
+            break
+    if bad is None:
+        rr.ok({"function": f.qual, "years_evaluated": n})
+    else:
+        rr.fail(f.qual, f"year {bad[0]}: the code places 1 Tishri on day {bad[1]}, the published molad arithmetic on day {_hebrew_elapsed_days_spec(bad[0])}", ctx.loc(f))
+    return rr
